@@ -3,6 +3,21 @@
 // C45 correspondence harness: serialises the token list of each `doc` line to XML text, feeds the
 // real idoc.ExplodeXML and prints the Result canonically (format of lean/Driver/C45.lean).
 // `raw <hex>` lines feed arbitrary bytes (totality monitor only).
+//
+// The whole op file is ONE process, so the calls form a sequence.  `call <mode> <items> <partners>
+// <statuses> <dates> <toks>` is `doc` with a prescribed way of handing the configuration to
+// ExplodeXML, the way a long-running caller does it:
+//
+//	fresh    newly allocated slices (what `doc` does)
+//	reuse    names = append(names[:0], ...) into the harness's persistent buffers (same backing
+//	         arrays as the previous reuse/inplace call whenever the capacity suffices)
+//	inplace  cfg.ItemSegments[i] = ... element by element into the persistent config when the
+//	         lengths match (otherwise like reuse)
+//	same     the persistent config is passed again untouched (the op's lists must equal it)
+//
+// After every doc/call the harness also (a) checks that ExplodeXML left the caller's configuration
+// and input bytes alone and (b) re-renders the Results of the previous calls: a Result that changed
+// after it was returned gets ` changed-after-return=<age>` appended to the CURRENT line.
 package main
 
 import (
@@ -141,6 +156,111 @@ func showSegs(segs []idoc.Segment) string {
 	return strings.Join(out, "|")
 }
 
+// persistent caller-side configuration (modes reuse / inplace / same)
+var (
+	bufs [4][]string
+	cur  idoc.ExplodeConfig
+)
+
+func curLists() [4]*[]string {
+	return [4]*[]string{&cur.ItemSegments, &cur.PartnerSegments, &cur.StatusSegments, &cur.DateSegments}
+}
+
+func sameList(a, b []string) bool {
+	if len(a) != len(b) {
+		return false
+	}
+	for i := range a {
+		if a[i] != b[i] {
+			return false
+		}
+	}
+	return true
+}
+
+// deliver builds the ExplodeConfig for this call the way `mode` prescribes.
+func deliver(mode string, lists [4][]string) (idoc.ExplodeConfig, bool) {
+	switch mode {
+	case "fresh":
+		var c [4][]string
+		for k, l := range lists {
+			if l != nil {
+				c[k] = make([]string, len(l))
+				copy(c[k], l)
+			}
+		}
+		return idoc.ExplodeConfig{ItemSegments: c[0], PartnerSegments: c[1], StatusSegments: c[2], DateSegments: c[3]}, true
+	case "reuse", "inplace":
+		for k, dst := range curLists() {
+			if mode == "inplace" && len(*dst) == len(lists[k]) {
+				for i := range lists[k] {
+					(*dst)[i] = lists[k][i]
+				}
+				continue
+			}
+			bufs[k] = append(bufs[k][:0], lists[k]...)
+			*dst = bufs[k]
+		}
+		return cur, true
+	case "same":
+		for k, dst := range curLists() {
+			if !sameList(*dst, lists[k]) {
+				return cur, false
+			}
+		}
+		return cur, true
+	}
+	return cur, false
+}
+
+type kept struct {
+	res  idoc.Result
+	show string
+}
+
+var history []kept // most recent last; at most 4
+
+func showResult(r idoc.Result) string {
+	root := "-"
+	if r.Header.Root != "" {
+		root = hx(r.Header.Root)
+	}
+	return fmt.Sprintf("ok root=%s hattrs=%s n=%d segs=%s items=%s partners=%s statuses=%s dates=%s", root,
+		showMap(r.Header.Attributes), len(r.Segments), showSegs(r.Segments), showSegs(r.Items), showSegs(r.Partners),
+		showSegs(r.Statuses), showSegs(r.Dates))
+}
+
+// explodeOnce runs one call and the caller-side monitors around it.
+func explodeOnce(text string, cfg idoc.ExplodeConfig, lists [4][]string) string {
+	raw := []byte(text)
+	r, err := idoc.ExplodeXML(raw, cfg)
+	suffix := ""
+	if string(raw) != text {
+		suffix += " input-bytes-modified"
+	}
+	for k, l := range [4][]string{cfg.ItemSegments, cfg.PartnerSegments, cfg.StatusSegments, cfg.DateSegments} {
+		if !sameList(l, lists[k]) {
+			suffix += " config-modified"
+			break
+		}
+	}
+	for i, h := range history {
+		if showResult(h.res) != h.show {
+			suffix += fmt.Sprintf(" changed-after-return=%d", len(history)-i)
+			history[i].show = showResult(h.res)
+		}
+	}
+	if err != nil {
+		return "err" + suffix
+	}
+	out := showResult(r)
+	history = append(history, kept{r, out})
+	if len(history) > 4 {
+		history = history[1:]
+	}
+	return out + suffix
+}
+
 func main() {
 	w := bufio.NewWriter(os.Stdout)
 	defer w.Flush()
@@ -169,7 +289,12 @@ func main() {
 					return "raw err"
 				}
 				return "raw ok"
-			case f[0] == "doc" && len(f) == 6:
+			case (f[0] == "doc" && len(f) == 6) || (f[0] == "call" && len(f) == 7):
+				mode := "fresh"
+				if f[0] == "call" {
+					mode = f[1]
+					f = f[1:]
+				}
 				items, ok1 := parseList(f[1])
 				partners, ok2 := parseList(f[2])
 				statuses, ok3 := parseList(f[3])
@@ -178,18 +303,12 @@ func main() {
 				if !(ok1 && ok2 && ok3 && ok4 && ok5) {
 					return "bad-op"
 				}
-				r, err := idoc.ExplodeXML([]byte(text), idoc.ExplodeConfig{ItemSegments: items, PartnerSegments: partners,
-					StatusSegments: statuses, DateSegments: dates})
-				if err != nil {
-					return "err"
+				lists := [4][]string{items, partners, statuses, dates}
+				cfg, ok := deliver(mode, lists)
+				if !ok {
+					return "bad-op"
 				}
-				root := "-"
-				if r.Header.Root != "" {
-					root = hx(r.Header.Root)
-				}
-				return fmt.Sprintf("ok root=%s hattrs=%s n=%d segs=%s items=%s partners=%s statuses=%s dates=%s", root,
-					showMap(r.Header.Attributes), len(r.Segments), showSegs(r.Segments), showSegs(r.Items), showSegs(r.Partners),
-					showSegs(r.Statuses), showSegs(r.Dates))
+				return explodeOnce(text, cfg, lists)
 			}
 			return "bad-op"
 		}()
